@@ -102,3 +102,38 @@ package fai
 //@       result0.cur == start && result0.start == start && result0.end == end && 0 <= start && start <= end && end <= f.Index[name].Length)
 //@   ensures[C19] @refused result1 != nil ==> result0 == nil
 //@   ensures[C19] @complete (has(f.Index, name) && 0 <= start && start <= end && end <= f.Index[name].Length) ==> result1 == nil
+
+// NewIndex: the scanner is abstracted as a token stream with two integer ghost
+// fields: tokpos(sc), the number of stream bytes consumed up to and including
+// the current token, and toklen(sc), the length of the current token (the split
+// function installed by NewIndex yields whole lines including the terminator,
+// so token lengths add up to stream offsets). The stream is assumed shorter
+// than 2^50 bytes. Stated from the property: the Start recorded for a
+// sequence is the stream offset of the first byte after its header line, and
+// the running offset is the offset of the line being looked at.
+//@ ghostfield tokpos, toklen
+//@ trusted func ext:bufio.NewScanner
+//@   ensures result != nil && tokpos(result) == 0 && toklen(result) == 0
+//@ trusted func ext:bufio.Scanner.Split
+//@ trusted func ext:bufio.Scanner.Scan
+//@   modifies tokpos(s), toklen(s)
+//@   ensures 0 <= toklen(s) && toklen(s) <= 1048576 && tokpos(s) == old(tokpos(s)) + toklen(s) && tokpos(s) <= 1125899906842624
+//@ trusted func ext:bufio.Scanner.Bytes
+//@   ensures len(result) == toklen(s)
+//@ trusted func ext:bufio.Scanner.Err
+//@ trusted func ext:bytes.TrimSpace
+//@   ensures len(result) <= len(s)
+//@   ensures len(result) > 0 ==> (result[0] != 32 && result[0] != 9)
+//@ trusted func ext:bytes.Equal
+//@ trusted func ext:bytes.IndexAny
+//@   ensures 0 - 1 <= result && result < len(s)
+//@ trusted func ext:fmt.Errorf
+//@   ensures result != nil
+
+//@ func NewIndex
+//@   mode int
+//@   props C19
+//@   loop 0 invariant @offset sc != nil && 0 <= offset && offset == int64(tokpos(sc)) && 0 <= rec.Length && int64(rec.Length) <= offset &&
+//@       0 <= rec.BytesPerLine && rec.BytesPerLine <= 1048576 && 0 <= rec.BasesPerLine && rec.BasesPerLine <= 1048576
+//@   at stmt "rec.Start = offset + int64(len(sc.Bytes()))" assert rec.Start == int64(tokpos(sc))
+//@   at stmt "lenID := bytes.IndexAny(b, " \t")" assume ret != 0
